@@ -859,3 +859,150 @@ def _const_value(b, op, depth=0):
         if o == "Mul":
             return x * y
     return None
+
+
+# ------------------------------------------------------------------------------------------
+# length expressions of gen_biguint, decided by evaluating the expressions extracted from MIR
+
+
+class CantEval(Exception):
+    pass
+
+
+def eval_int(b, op, env, depth=0):
+    """value of an integer/bool operand as a function of the parameters in env (local -> int); only single-definition
+    locals, constants, integer arithmetic and a few total library functions on integers are interpreted"""
+    if depth > 40:
+        raise CantEval("too deep")
+    if op["k"] == "const":
+        if "val" in op:
+            return int(op["val"])
+        if "deref_val" in op:
+            return int(op["deref_val"])
+        raise CantEval("constant")
+    pl = core.op_place(op)
+    if pl is None:
+        raise CantEval("operand")
+    v = eval_local(b, pl["local"], env, depth + 1)
+    for e in pl["proj"]:
+        if e["k"] == "deref":
+            continue
+        if e["k"] == "field":
+            if not isinstance(v, tuple):
+                raise CantEval("field of scalar")
+            v = v[e["idx"]]
+        elif e["k"] == "downcast":
+            continue
+        else:
+            raise CantEval(e["k"])
+    return v
+
+
+def eval_local(b, l, env, depth):
+    if l in env:
+        return env[l]
+    ds = b.defs().get(l, [])
+    if len(ds) != 1:
+        raise CantEval("_%d has %d definitions" % (l, len(ds)))
+    d = ds[0]
+    if d[0] == "assign":
+        rv = d[3]["rv"]
+        k = rv["k"]
+        if k == "use":
+            return eval_int(b, rv["op"], env, depth)
+        if k in ("ref", "copyforderef"):
+            return eval_int(b, {"k": "copy", "place": rv["place"]}, env, depth)
+        if k == "cast" and rv["ck"] == "IntToInt":
+            v = eval_int(b, rv["op"], env, depth)
+            return int(v)
+        if k == "binop":
+            x = eval_int(b, rv["a"], env, depth)
+            y = eval_int(b, rv["b"], env, depth)
+            o = rv["op"]
+            base = o.replace("WithOverflow", "").replace("Unchecked", "")
+            if base == "Add":
+                r = x + y
+            elif base == "Sub":
+                r = x - y
+            elif base == "Mul":
+                r = x * y
+            elif base == "Div":
+                r = x // y
+            elif base == "Rem":
+                r = x % y
+            elif base == "Shr":
+                r = x >> y
+            elif base == "Shl":
+                r = x << y
+            elif base in ("Gt", "Ge", "Lt", "Le", "Eq", "Ne"):
+                r = {"Gt": x > y, "Ge": x >= y, "Lt": x < y, "Le": x <= y, "Eq": x == y, "Ne": x != y}[base]
+                return int(r)
+            else:
+                raise CantEval(o)
+            return (r, 0) if o.endswith("WithOverflow") else r
+        raise CantEval("rvalue " + k)
+    if d[0] == "call":
+        t = d[2]
+        nm = callee_name(t)
+        nargs = 1 if nm in ("to_usize", "to_u64", "to_u32", "unwrap", "expect", "from", "into") else len(t["args"])
+        args = [eval_int(b, a, env, depth) for a in t["args"][:nargs]]
+        if nm == "div_rem":
+            return (args[0] // args[1], args[0] % args[1])
+        if nm == "div_ceil":
+            return -(-args[0] // args[1])
+        if nm == "div_floor":
+            return args[0] // args[1]
+        if nm in ("to_usize", "to_u64", "to_u32", "unwrap", "expect", "from", "into", "min", "max"):
+            if nm == "min":
+                return min(args)
+            if nm == "max":
+                return max(args)
+            return args[0]
+        raise CantEval("call " + str(nm))
+    raise CantEval("def")
+
+
+def check_raw_slice_lengths(ctx, res, config="all"):
+    """gen_biguint: u32 view length = ceil(bits/32) and it fits the u64 buffer (len <= 2 * native_len); the shift remainder
+    handed to gen_bits is bits mod 32 - decided by evaluating the length expressions read from MIR for bits = 0..=4096 and
+    checking that they advance uniformly every 64 bits (so the bound holds for every bit size)"""
+    facts = ctx.facts(config)
+    bs = facts.find(suffix="bigrand::RandBigInt>::gen_biguint")
+    if len(bs) != 1:
+        res.fail(Finding("R4-anchor-lost", "gen_biguint", "not found", file="src/bigrand.rs", line=0))
+        return
+    b = bs[0]
+    rc = [(i, t) for i, t in b.calls() if callee_name(t) == "from_raw_parts_mut" and i in b.live_blocks()]
+    fe = [(i, t) for i, t in b.calls() if callee_name(t) == "from_elem" and i in b.live_blocks()]
+    gb = [(i, t) for i, t in b.calls() if callee_name(t) == "gen_bits" and i in b.live_blocks()]
+    if len(rc) != 1 or len(fe) != 1 or len(gb) != 1:
+        res.fail(Finding("R4-anchor-lost", "gen_biguint-shape", "expected one from_raw_parts_mut, one vec![0; n] and one gen_bits call", b))
+        return
+    errs = []
+    lens = []
+    try:
+        for bits in range(0, 4097):
+            env = {2: bits}
+            ln = eval_int(b, rc[0][1]["args"][1], env)
+            nat = eval_int(b, fe[0][1]["args"][1], env)
+            rem = eval_int(b, gb[0][1]["args"][2], env)
+            lens.append((ln, nat, rem))
+            if ln > 2 * nat and not errs:
+                errs.append("bit_size %d: the u32 view has %d words but the u64 buffer only %d digits (%d words): out-of-bounds write" % (bits, ln, nat, 2 * nat))
+            if ln != -(-bits // 32) and len(errs) < 2:
+                errs.append("bit_size %d: %d u32 words are generated, the documented stream uses ceil(n/32) = %d" % (bits, ln, -(-bits // 32)))
+            if rem != bits % 32 and len(errs) < 3:
+                errs.append("bit_size %d: gen_bits receives remainder %d, expected n mod 32 = %d" % (bits, rem, bits % 32))
+    except CantEval as e:
+        res.fail(Finding("R4-raw-slice-lengths", b.path, "cannot evaluate the length expressions of gen_biguint (%s): the bound len <= 2*native_len is not shown" % e, b))
+        return
+    # uniform advance: f(b+64) - f(b) constant  =>  the checked range generalises to every bit size
+    for j in (0, 1):
+        steps = {lens[i + 64][j] - lens[i][j] for i in range(0, 4097 - 64)}
+        if len(steps) != 1:
+            errs.append("length expression %d does not advance uniformly with the bit size" % j)
+    if errs:
+        res.fail(Finding("R4-raw-slice-lengths", b.path, "; ".join(errs[:3]), b))
+    else:
+        res.ok("R4-raw-slice-lengths", b.path, {"evaluated_bit_sizes": len(lens), "len": "ceil(bits/32)", "bound": "len <= 2*native_len", "rem": "bits mod 32"})
+    res.clause("R4-S/C18: gen_biguint's u32 view has exactly ceil(n/32) words, never more than twice the u64 buffer's digits, and gen_bits gets n mod 32 (length expressions read from MIR, evaluated for n = 0..4096, uniform advance per 64 bits)")
